@@ -50,3 +50,28 @@ Definition check_enc (c : N * pdata J0 * list bool * option (list wire)) : bool 
 
 Definition check_dec (c : wire * list (text * lres J0) * list (N * option N) * dres J0) : bool :=
   let '(w, lt, dt, expect) := c in dres_eqb (decode J0 jkind0 (loads0 lt) (digit0 dt) w) expect.
+
+(* ---- payload cases (payload.py) ---- *)
+From EIO Require Import Payload.
+Definition form0 (tbl : list (text * option text)) (s : text) : option text :=
+  match lookup s tbl with Some r => r | None => None end.
+Definition triple_eqb (a b : N * pdata J0 * bool) : bool :=
+  let '(t, d, f) := a in let '(t', d', f') := b in (t =? t') && pdata_eqb (view d) (view d') && Bool.eqb f f'.
+(* decode: limit, body, oracle tables, what the implementation returned (None = it raised) *)
+Definition check_pdec (c : nat * text * list (text * lres J0) * list (N * option N) * list (text * option text)
+                           * option (list (N * pdata J0 * bool))) : bool :=
+  let '(limit, body, lt, dt, ft, expect) := c in
+  match payload_decode J0 jkind0 (loads0 lt) (digit0 dt) (form0 ft) limit body, expect with
+  | POk l, Some l' => eqb_list triple_eqb l l'
+  | PErr _, None => true
+  | _, _ => false
+  end.
+(* encode: packets as constructor arguments, implementation's payload text *)
+Fixpoint mk_all (l : list (N * pdata J0)) : option (list (pkt J0)) :=
+  match l with
+  | [] => Some []
+  | (t, d) :: r => match mk_packet t d, mk_all r with Some p, Some ps => Some (p :: ps) | _, _ => None end
+  end.
+Definition check_penc (c : list (N * pdata J0) * text) : bool :=
+  let '(l, expect) := c in
+  match mk_all l with Some ps => eqbl (payload_encode J0 dumps0 ps) expect | None => false end.
